@@ -925,3 +925,19 @@ func pathOfD(v ssa.Value, d int) string {
 	}
 	return v.Name()
 }
+
+// isLenLike: v is len(x), possibly converted to another integer type (a length is never negative, so
+// every integer conversion of it keeps the value as far as comparisons with small constants go).
+func isLenLike(v ssa.Value) bool {
+	for i := 0; i < 4; i++ {
+		switch x := v.(type) {
+		case *ssa.Call:
+			return builtinName(&x.Call) == "len"
+		case *ssa.Convert:
+			v = x.X
+			continue
+		}
+		return false
+	}
+	return false
+}
